@@ -227,8 +227,16 @@ def _check_accessors(ro, add, order=None, doc=None):
                 add('C16.timing', '%s.end_time %r, expected %r' % (lab, end, e_end))
             if o2 and exp_explicit(es, 'StoryEnded') is not None and end != exp_explicit(es, 'StoryEnded'):
                 add('C15.accessor', '%s.end_time %r does not agree with the StoryEnded in the XML' % (lab, end))
+            # no end can be known: no explicit end and either no duration, or neither an explicit start nor a running-order start
+            no_end = exp_explicit(es, 'StoryEnded') is None and (
+                durs[i] is None or (exp_explicit(es, 'StoryStarted') is None and exp_ro_start is None))
+            if o2 and no_end and end is not None:
+                add('C16.timing', '%s.end_time %r although the document gives it no end, and no start or duration to derive one' % (lab, end))
+                add('C15.accessor', '%s.end_time %r is not in the document' % (lab, end))
             if i == len(exp_stories) - 1 and (exp_explicit(es, 'StoryEnded') is not None or have_start):
                 last_end = ('v', e_end)
+            elif i == len(exp_stories) - 1 and no_end:
+                last_end = ('none', None)
             if durs[i] is not None:
                 t += durs[i]
             o, sc = get(lab + '.script', lambda: st.script)
@@ -260,6 +268,8 @@ def _check_accessors(ro, add, order=None, doc=None):
                     add('C16.timing', 'ro.end_time %r for a running order without stories' % (ro_end,))
             elif last_end is not None and ro_end != last_end[1]:
                 add('C16.timing', 'ro.end_time %r, last story ends %r' % (ro_end, last_end[1]))
+                if last_end[0] == 'none':
+                    add('C15.accessor', 'ro.end_time %r although the last story has no end in the document' % (ro_end,))
                 if exp_explicit(exp_stories[-1], 'StoryEnded') is not None:
                     add('C15.accessor', 'ro.end_time %r does not agree with the StoryEnded of the last story in the XML' % (ro_end,))
     after = ElementTree.tostring(ro.xml, encoding='unicode')
